@@ -79,6 +79,28 @@ def DTF.key (f : DTF) : Int :=
 /-- `date.toordinal()` -/
 def DF.ord (f : DF) : Nat := ymd2ord f.y f.mo f.d
 
+/-- `_days_in_month(year, month)` -/
+def daysInMonth (y m : Nat) : Nat :=
+  if m = 2 then (if isLeap y then 29 else 28) else if m = 4 ∨ m = 6 ∨ m = 9 ∨ m = 11 then 30 else 31
+
+/-- `_check_date_fields`: what `date(...)` / `fromisoformat` accept (year 1..9999 — the upper bound plays no role here) -/
+def validYMD (y m d : Nat) : Bool := decide (1 ≤ y ∧ 1 ≤ m ∧ m ≤ 12 ∧ 1 ≤ d ∧ d ≤ daysInMonth y m)
+
+def DF.valid (f : DF) : Bool := validYMD f.y f.mo f.d
+
+/-- `_check_date_fields` and `_check_time_fields` -/
+def DTF.valid (f : DTF) : Bool := validYMD f.y f.mo f.d && decide (f.h < 24 ∧ f.mi < 60 ∧ f.s < 60)
+
+/-- `date.__lt__`: Python tuple `<` on (year, month, day) -/
+def DF.fieldsLt (a b : DF) : Bool :=
+  decide (a.y < b.y ∨ (a.y = b.y ∧ (a.mo < b.mo ∨ (a.mo = b.mo ∧ a.d < b.d))))
+
+/-- the path of `datetime._cmp` for two values with the same UTC offset (or both without): Python tuple `<` on
+    (year, month, day, hour, minute, second); only values with different offsets are compared through `self - other` -/
+def DTF.fieldsLt (a b : DTF) : Bool :=
+  decide (a.y < b.y ∨ (a.y = b.y ∧ (a.mo < b.mo ∨ (a.mo = b.mo ∧ (a.d < b.d ∨ (a.d = b.d ∧
+    (a.h < b.h ∨ (a.h = b.h ∧ (a.mi < b.mi ∨ (a.mi = b.mi ∧ a.s < b.s))))))))))
+
 inductive Term
   | bnode (l : Str)
   | iri (s : Str)
